@@ -100,12 +100,13 @@ Definition show_action (m a : N) (act : action) : string :=
   | ActPanic e => "P:" ++ render_error hinfo e
   end.
 
-(* user code that panics (harness conventions): answer functions with id >= 1000,
+(* user code that panics (harness conventions): answer functions with id 1000..1999 (ids >= 2000 call back
+   into the mock instead),
    Clone of a repeatedly returned value with tag >= 1000, the armed real function
    or default body.  None of this is mock-induced: nothing is recorded. *)
 Definition user_panic (armed : N) (act : action) : option string :=
   match act with
-  | ActAnswer f => if 1000 <=? f then Some "user:ans" else None
+  | ActAnswer f => if (1000 <=? f) && (f <? 2000) then Some "user:ans" else None
   | ActReturn (RVTag v) => if 1000 <=? v then Some "user:clone" else None
   | ActReal => if armed =? 1 then Some "user:real" else None
   | ActDefault => if armed =? 2 then Some "user:dflt" else None
@@ -191,47 +192,75 @@ Definition body_calls (a : N) : list (N * N) :=
 (* p_rc2's own body: exactly one call, of the Rc-receiver required method, with the same argument *)
 Definition body_calls_of (m a : N) : list (N * N) := if m =? 24 then [(23, a)] else body_calls a.
 
-Fixpoint eval_act (fuel : nat) (cfg : config) (armed : N) (s1 : state) (m a b : N) (act : action)
-  : state * N * (string + string) :=
+(* a default body: the calls [cs] one after the other through [step]; the first panic ends it *)
+Fixpoint body_loop (step : state -> N -> N -> N -> state * N * (string + string) * N) (finish : list string -> string)
+                   (cs : list (N * N)) (st : state) (ar : N) (acc : list string) (hl : N)
+  : state * N * (string + string) * N :=
+  match cs with
+  | [] => (st, ar, inl (finish acc), hl)
+  | (mj, aj) :: cs' =>
+    let '(s3, ar3, r, h) := step st ar mj aj in
+    match r with
+    | inl t => body_loop step finish cs' s3 ar3 (acc ++ [t])%list (N.max hl h)
+    | inr p => (s3, ar3, inr p, N.max hl h)
+    end
+  end.
+
+(* [d]: how many delegation helpers deep the code making this call already runs; the last component
+   of the result is the deepest helper level this evaluation needed (0 = none) *)
+Fixpoint eval_act_h (fuel : nat) (cfg : config) (armed : N) (s1 : state) (m a b : N) (act : action) (d : N)
+  : state * N * (string + string) * N :=
   match user_panic armed act with
-  | Some msg => (s1, disarm armed act, inr msg)
+  | Some msg => (s1, disarm armed act, inr msg, 0)
   | None =>
     match act with
-    | ActReturn (RVTag v) => (s1, armed, inl ("r" ++ dec v))
-    | ActReturn RVDefault => (s1, armed, inl "")
-    | ActAnswer g => (s1, armed, inl ("a" ++ dec g ++ "(" ++ dec a ++ ")"))
-    | ActPanic e => (s1, armed, inr (render_error hinfo e))
+    | ActReturn (RVTag v) => (s1, armed, inl ("r" ++ dec v), 0)
+    | ActReturn RVDefault => (s1, armed, inl "", 0)
+    | ActAnswer g =>
+      if 2000 <=? g then
+        (* an answer function that itself calls a provided method (p_ref(0)) on the mock it was handed *)
+        match fuel with
+        | O => (s1, armed, inr "fuel", 0)
+        | S f =>
+          let '(s2, act2) := call hinfo N haccepts hdebug cfg s1 14 0 in
+          let '(s3, ar3, r, h) := eval_act_h f cfg armed s2 14 0 1 act2 d in
+          (s3, ar3, match r with
+                    | inl t => inl ("a" ++ dec g ++ "(" ++ dec a ++ ")[" ++ t ++ "]")
+                    | inr p => inr p
+                    end, h)
+        end
+      else (s1, armed, inl ("a" ++ dec g ++ "(" ++ dec a ++ ")"), 0)
+    | ActPanic e => (s1, armed, inr (render_error hinfo e), 0)
     | ActReal =>
       if m =? 13 then
-        if a =? 0 then (s1, armed, inl ("base(" ++ dec b ++ ")"))
+        if a =? 0 then (s1, armed, inl ("base(" ++ dec b ++ ")"), 0)
         else match fuel with
-             | O => (s1, armed, inr "fuel")
+             | O => (s1, armed, inr "fuel", 0)
              | S f =>
                let '(s2, act2) := call hinfo N haccepts hdebug cfg s1 13 (a - 1) in
-               let '(s3, ar3, r) := eval_act f cfg armed s2 13 (a - 1) b act2 in
-               (s3, ar3, match r with inl t => inl ("rec(" ++ t ++ ")") | inr p => inr p end)
+               let '(s3, ar3, r, h) := eval_act_h f cfg armed s2 13 (a - 1) b act2 d in
+               (s3, ar3, match r with inl t => inl ("rec(" ++ t ++ ")") | inr p => inr p end, h)
              end
-      else if m =? 12 then (s1, armed, inl ("real12(" ++ dec b ++ "," ++ dec a ++ ")"))
-      else (s1, armed, inl ("real" ++ dec m ++ "(" ++ dec a ++ ")"))
+      else if m =? 12 then (s1, armed, inl ("real12(" ++ dec b ++ "," ++ dec a ++ ")"), 0)
+      else (s1, armed, inl ("real" ++ dec m ++ "(" ++ dec a ++ ")"), 0)
     | ActDefault =>
-      if (m =? 2) || (m =? 3) then (s1, armed, inl ("dflt" ++ dec m ++ "(" ++ dec a ++ ")"))
+      if (m =? 2) || (m =? 3) then (s1, armed, inl ("dflt" ++ dec m ++ "(" ++ dec a ++ ")"), d + 1)
       else match fuel with
-           | O => (s1, armed, inr "fuel")
+           | O => (s1, armed, inr "fuel", 0)
            | S f =>
-             (fix loop (cs : list (N * N)) (st : state) (ar : N) (acc : list string) : state * N * (string + string) :=
-                match cs with
-                | [] => (st, ar, inl ("dflt" ++ dec m ++ "(" ++ dec a ++ ")[" ++ join "," acc ++ "]"))
-                | (mj, aj) :: cs' =>
-                  let '(s2, act2) := call hinfo N haccepts hdebug cfg st mj aj in
-                  let '(s3, ar3, r) := eval_act f cfg ar s2 mj aj (aj + 1) act2 in
-                  match r with
-                  | inl t => loop cs' s3 ar3 (acc ++ [t])%list
-                  | inr p => (s3, ar3, inr p)
-                  end
-                end) (body_calls_of m a) s1 armed []
+             body_loop (fun st ar mj aj =>
+                          let '(s2, act2) := call hinfo N haccepts hdebug cfg st mj aj in
+                          eval_act_h f cfg ar s2 mj aj (aj + 1) act2 (d + 1))
+                       (fun acc => "dflt" ++ dec m ++ "(" ++ dec a ++ ")[" ++ join "," acc ++ "]")
+                       (body_calls_of m a) s1 armed [] (d + 1)
            end
     end
   end.
+
+Definition eval_act (fuel : nat) (cfg : config) (armed : N) (s1 : state) (m a b : N) (act : action)
+  : state * N * (string + string) := fst (eval_act_h fuel cfg armed s1 m a b act 0).
+Definition helper_levels (fuel : nat) (cfg : config) (armed : N) (s1 : state) (m a b : N) (act : action) : N :=
+  snd (eval_act_h fuel cfg armed s1 m a b act 0).
 
 Definition show_res (r : string + string) : string :=
   match r with
@@ -295,10 +324,9 @@ Definition step (w : world) (e : event) : world * string :=
         let w2 := set_armed (set_state w1 s2) ar2 in
         match rc with
         | RRef | RMut | RPin =>
-          (match act with
-           | ActDefault => set_insts w2 (upd (w_insts w2) i (set_helper it))
-           | _ => w2
-           end, show_res r)
+          (set_insts w2 (upd (w_insts w2) i
+                            (set_helper_levels it (helper_levels 12 (w_cfg w) (w_armed w) s1 m a (a + 1) act))),
+           show_res r)
         | RRcKept => (w2, show_res r)
         | RVal | RRcSole =>
           (* the instance is consumed: it is dropped when the call returns (or unwinds) *)
